@@ -345,7 +345,9 @@ func (eng *Engine) verifyFunctionSpec(fn *ssa.Function, modes Modes, spec map[st
 	if ct != nil && modes.Post {
 		for _, c := range ct.Cuts {
 			if !top.firedCuts[c] {
-				panic(contractError{fmt.Sprintf("%s: no statement `%s` in %s for the intermediate assertion", c.Cl.Where, c.Anchor, shortFn(fn))})
+				// intermediate assertions are proof steps: when the statement they are anchored on is gone the step is
+				// skipped (the postconditions still have to be proved, without its help)
+				g.note("intermediate assertion skipped: no statement `%s` in %s (%s)", c.Anchor, shortFn(fn), c.Cl.Where)
 			}
 		}
 	}
